@@ -18,7 +18,7 @@
 (*                                                                         *)
 (* A statement is first RESOLVED (every column reference becomes a         *)
 (* positional accessor into the rows of some table, every SELECT gets the  *)
-(* table it iterates) and then RUN.  Denote = Run o DResolve where         *)
+(* table it iterates) and then RUN.  Denote = RunQ o DResolve where         *)
 (* DResolve is the declarative resolution: every SELECT resolves against,  *)
 (* and iterates over, the table named by ITS OWN FROM clause.              *)
 (***************************************************************************)
@@ -107,7 +107,7 @@ ExprText(e) ==
 NameOf(t) == IF t.nm # "" THEN t.nm ELSE IF t.e.k = "col" THEN t.e.n ELSE ExprText(t.e)
 
 -----------------------------------------------------------------------------
-(* RUN a resolved statement rq = [tg |-> <<[e, nm, ty]..>>, src, wh, ord, dis, lim]
+(* RUN (RunQ) a resolved statement rq = [tg |-> <<[e, nm, ty]..>>, src, wh, ord, dis, lim]
      src : [k |-> "tab", n] | [k |-> "sub", q |-> rq]
      ord : <<[k |-> "tgt", i, desc] | [k |-> "expr", e, desc]..>>
    over the tables `tabs`.  Returns [ok, desc, rows].
@@ -118,7 +118,7 @@ NameOf(t) == IF t.nm # "" THEN t.nm ELSE IF t.e.k = "col" THEN t.e.n ELSE ExprTe
    evaluated function constructor would be re-evaluated at every application). *)
 Mat(f) == f \o <<>>
 
-RECURSIVE Run(_, _), PreE(_, _)
+RECURSIVE RunQ(_, _), PreE(_, _)
 
 EvalR(e, row) ==
     LET RECURSIVE Ev(_)
@@ -149,7 +149,7 @@ PreE(e, tabs) ==
     CASE e.k = "bin" -> [k |-> "bin", op |-> e.op, l |-> PreE(e.l, tabs), r |-> PreE(e.r, tabs)]
       [] e.k = "and" -> [k |-> "and", l |-> PreE(e.l, tabs), r |-> PreE(e.r, tabs)]
       [] e.k = "agg" -> [k |-> "agg", f |-> e.f, e |-> PreE(e.e, tabs)]
-      [] e.k = "in" -> LET sub == Run(e.q, tabs) IN
+      [] e.k = "in" -> LET sub == RunQ(e.q, tabs) IN
                        [k |-> "inv", neg |-> e.neg, l |-> PreE(e.l, tabs), ok |-> sub.ok,
                         col |-> Mat([m \in 1..Len(sub.rows) |-> sub.rows[m][1]])]
       [] OTHER -> e
@@ -166,9 +166,9 @@ AggVal(e, rows) ==
                                      ELSE nn[MinOf({i \in 1..Len(nn) : \A j \in 1..Len(nn) : ~ValLess(nn[j], nn[i])})]
                    [] OTHER -> Err
 
-Run(rq, tabs) ==
+RunQ(rq, tabs) ==
     LET src == IF rq.src.k = "tab" THEN [ok |-> TRUE, rows |-> tabs[rq.src.n].rows]
-               ELSE IF rq.src.k = "sub" THEN Run(rq.src.q, tabs)
+               ELSE IF rq.src.k = "sub" THEN RunQ(rq.src.q, tabs)
                ELSE [ok |-> FALSE, rows |-> <<>>]
     IN
     IF ~src.ok THEN Failed
@@ -251,7 +251,7 @@ DResolve(q, tabs) ==
                 ELSE [k |-> "expr", e |-> DExpr(q.ord[k].e, schema, tabs), desc |-> q.ord[k].desc]],
      dis |-> q.dis, lim |-> q.lim]
 
-Denote(q, tabs) == Run(DResolve(q, tabs), tabs)
+Denote(q, tabs) == RunQ(DResolve(q, tabs), tabs)
 
 (* the table holding a result *)
 Materialise(res) == [cols |-> res.desc, rows |-> res.rows]
